@@ -61,6 +61,10 @@ theorem fact_match_result_consumers :
     recursively, at the submission requirements); `CredentialsRequired` skips nil requirements -/
 theorem fact_nil_entries_checked : Facts.C12.nilEntriesChecked = true := by decide
 
+/-- `apply`: the counter compared with `*Max` is a separate variable incremented only when a member is taken (not the
+    position in the group): `takeLoopPre` counts taken members -/
+theorem fact_apply_max_counts_taken_members : Facts.C12.applyMaxCountsTakenMembers = true := by decide
+
 /-- the configuration the model is run with is the repaired one -/
 theorem fact_cfg_fixed : Facts.C12.cfg = Cfg.fixed := by decide
 
